@@ -10,6 +10,15 @@ class Family:
     def __init__(self, cx, path=None):
         self.mod = cx.ts(path or CODEGEN)
         m = self.mod
+        # boolean helpers of the module: a single returned expression over the parameters
+        for hn, hf in list(m.functions.items()) + [(vn, init) for vn, (_k, init, _d) in m.vars.items() if init is not None and init.get("type") in ("ArrowFunctionExpression", "FunctionExpression")]:
+            b = hf.get("body")
+            if b is None:
+                continue
+            single = (b.get("type") == "BlockStatement" and len(b["stmts"]) == 1 and b["stmts"][0]["type"] == "ReturnStatement") or b.get("type") != "BlockStatement"
+            rt = tsast.type_str((hf.get("returnType") or {}).get("typeAnnotation"))
+            if single and (rt in ("boolean", "") or " is " in rt):
+                PREDICATE_HELPERS[hn] = hf
         self.iface = m.interfaces.get("Runtype")
         self.iface_methods = []
         if self.iface:
@@ -417,6 +426,9 @@ def index_signature_field(fam, cname):
 
 
 _NODES = {}
+# module-level boolean helpers (name -> function node), registered by Family(); see known_atoms
+PREDICATE_HELPERS = {}
+_expanding = []
 
 
 def known_atoms(fn, node):
@@ -438,6 +450,25 @@ def known_atoms(fn, node):
             return
         _NODES[s(e)] = e
         out[s(e)] = pol
+        # a module-level predicate `const isObj = (x) => typeof x === "object" && x !== null` / `function isObj(x)
+        # { return .. }`: what its single returned expression says about the argument is known as well
+        if e.get("type") == "CallExpression" and unparen(e["callee"]).get("type") == "Identifier" and unparen(e["callee"])["value"] in PREDICATE_HELPERS and len(_expanding) < 3:
+            h = PREDICATE_HELPERS[unparen(e["callee"])["value"]]
+            try:
+                body, _sub = tsast.inline_clone(h, e)
+            except Exception:
+                body = None
+            ret = None
+            if body is not None and body.get("type") == "BlockStatement" and len(body["stmts"]) == 1 and body["stmts"][0]["type"] == "ReturnStatement":
+                ret = body["stmts"][0].get("argument")
+            elif body is not None and body.get("type") not in ("BlockStatement", None):
+                ret = body
+            if ret is not None:
+                _expanding.append(1)
+                try:
+                    dec(ret, pol)
+                finally:
+                    _expanding.pop()
     for c, pol in known_conditions(fn, node):
         e = _NODES.get(c)
         if e is not None:
@@ -1052,10 +1083,17 @@ def typeof_domain(fn, node, name):
     """the `typeof` values the identifier `name` can have when `node` executes inside fn, as far as the enclosing /
     preceding tests on `typeof name` (if / ?: / early-leaving guards, and `switch (typeof name)` cases) tell"""
     dom = set(TYPEOF_ALL)
+    # `const kind = typeof x` : tests on `kind` are tests on `typeof x`
+    tnames = ["typeof %s" % re.escape(name)]
+    for an, ai in local_aliases(fn).items():
+        ai = unparen(ai)
+        if ai.get("type") == "UnaryExpression" and ai.get("operator") == "typeof" and s(ai["argument"]) == name:
+            tnames.append(re.escape(an))
+    tre = "(?:%s)" % "|".join(tnames)
     for a_, v_ in known_atoms(fn, node).items():
-        m = re.match(r"^\(?typeof %s\s*(===|==|!==|!=)\s*[\"']([a-z]+)[\"']\)?$" % re.escape(name), a_.strip())
+        m = re.match(r"^\(?%s\s*(===|==|!==|!=)\s*[\"']([a-z]+)[\"']\)?$" % tre, a_.strip())
         if not m:
-            m2 = re.match(r"^\(?[\"']([a-z]+)[\"']\s*(===|==|!==|!=)\s*typeof %s\)?$" % re.escape(name), a_.strip())
+            m2 = re.match(r"^\(?[\"']([a-z]+)[\"']\s*(===|==|!==|!=)\s*%s\)?$" % tre, a_.strip())
             if m2:
                 op, lit = m2.group(2), m2.group(1)
             else:
@@ -1067,9 +1105,34 @@ def typeof_domain(fn, node, name):
             dom &= {lit}
         else:
             dom.discard(lit)
+    # a disjunction of typeof tests known to hold: `typeof x === "number" || typeof x === "boolean"`
+    def typeof_lit(e):
+        e = unparen(e)
+        if e.get("type") == "BinaryExpression" and e["operator"] in ("===", "=="):
+            l, r = unparen(e["left"]), unparen(e["right"])
+            for a, b in ((l, r), (r, l)):
+                if a.get("type") == "UnaryExpression" and a["operator"] == "typeof" and s(a["argument"]) == name and b.get("type") == "StringLiteral":
+                    return b["value"]
+                if a.get("type") == "Identifier" and re.escape(a["value"]) in tnames[1:] and b.get("type") == "StringLiteral":
+                    return b["value"]
+        return None
+    def disjuncts(e):
+        e = unparen(e)
+        if e.get("type") == "BinaryExpression" and e["operator"] == "||":
+            return disjuncts(e["left"]) + disjuncts(e["right"])
+        return [e]
+    for a_, v_ in known_atoms(fn, node).items():
+        nd = _NODES.get(a_)
+        if nd is not None and v_ is True and unparen(nd).get("type") == "BinaryExpression" and unparen(nd)["operator"] == "||":
+            lits = [typeof_lit(d) for d in disjuncts(nd)]
+            if all(l is not None for l in lits):
+                dom &= set(lits)
     # switch (typeof name)
     for sw in walk(fn):
-        if sw.get("type") != "SwitchStatement" or s(unparen(sw["discriminant"])).replace(" ", "") != ("typeof%s" % name):
+        if sw.get("type") != "SwitchStatement":
+            continue
+        disc = s(unparen(sw["discriminant"])).replace(" ", "")
+        if not (disc == ("typeof%s" % name) or re.escape(disc) in tnames[1:]):
             continue
         cases = sw["cases"]
         lits = [unparen(c["test"]).get("value") if c.get("test") is not None else None for c in cases]
